@@ -155,6 +155,10 @@ TResults ==
                   (/\ Len(r.tags[name]) = Len(chains[e])
                    /\ \A i \in 1..Len(chains[e]) :
                         r.tags[name][i] = chains[e][i][KernelOfKey(name)]))
+       \* a tracked quantity the model interface computes from the state: computed from this chain's state alone
+       /\ \A name \in (DOMAIN Hdr.derived) \cap Tracked :
+            Chk("computed_position_entries_are_computed_from_the_chains_own_state",
+                Len(chains[e]) = 0 \/ \A i \in 1..Len(r.tags[name]) : r.tags[name][i] = <<Hdr.derived[name], 0>>)
        /\ Chk("stored_chain_empty_iff_nothing_kept", (Len(chains[e]) = 0) = (Len(r.keys) = 0))
        /\ Chk("transition_infos_for_every_transition", r.ninfo = nInfo[e])
        /\ Chk("kernel_states_for_every_transition",
